@@ -286,6 +286,16 @@ func (w *world) observe() *obs {
 		w.finding("ids-not-dense: ReadTx(%d) succeeds beyond the committed id %d", cid+1, cid)
 	}
 	w.checkAcks()
+	if os.Getenv("VH_DEBUG") != "" {
+		for id := cid + 1; id <= o.inmem; id++ {
+			if h, err := w.readHdr(id, true, false); err == nil {
+				a := h.Alh()
+				fmt.Fprintf(os.Stderr, "  step %d precommitted tx %d ts=%d bl=%d blroot=%x prev=%x eh=%x ne=%d alh=%x\n", w.stepIdx, id, h.Ts, h.BlTxID, h.BlRoot[:3], h.PrevAlh[:3], h.Eh[:3], h.NEntries, a[:3])
+			} else {
+				fmt.Fprintf(os.Stderr, "  step %d precommitted tx %d unreadable: %v\n", w.stepIdx, id, err)
+			}
+		}
+	}
 	return o
 }
 
